@@ -86,7 +86,8 @@ Record method := mkM {
   md_response : option (list ufield) }.       (* None: raw response, google.api.HttpBody *)
 Record command := mkC { c_name : option bytes; c_base : option bytes; c_methods : list method }.
 Record summary := mkS { s_name : bytes; s_fields : list ufield }.
-Record query := mkQ { q_events_in_get : bool; q_default_status : list bytes }.
+(* q_list_settings: the query block carries listRequest / eventsListRequest settings *)
+Record query := mkQ { q_events_in_get : bool; q_default_status : list bytes; q_list_settings : bool }.
 Record entity := mkE {
   e_pkg : bytes;                              (* dotted package name *)
   e_name : bytes;
@@ -505,10 +506,18 @@ Definition command_params_ok (e : entity) : bool :=
                                                 (path_join (command_base e c) (md_path m)))
                             (c_methods c)) (e_commands e).
 
+(* list-request settings of the query block: after the walk, the conversion of the List / Events
+   method calls proto.SetExtension((j5.list.v1.list_request) - a MessageOptions extension - on
+   MethodOptions (visitServiceMethodNode), which PANICS; walker errors come first, every other
+   conversion error would come later *)
+Definition list_settings (e : entity) : bool :=
+  match e_query e with Some q => q_list_settings q | None => false end.
+
 (* the conversion outcome (j5convert) as far as the expansion decides it *)
 Definition convert (e : entity) : outcome (list component) :=
   match expand e with
-  | Ok cs => if closed cs then
+  | Ok cs => if list_settings e then Panic "SetExtension list_request on MethodOptions (visitServiceMethodNode)" else
+             if closed cs then
                if fields_ok e then
                  if query_params_ok e && command_params_ok e then Ok cs
                  else Err "missing field in request"
